@@ -357,6 +357,7 @@ func (w *World) runECDSA(step int, q *ecdsaReq) *sigEvent {
 	}
 
 	// --- device faults (C09 abort-on-error / short reads completed)
+	systemSource := q.reader == rdNilGlobal || q.reader == rdExplicitGlobal
 	mustFail, mayFail := false, false
 	if q.reader != rdRFC6979 {
 		switch {
@@ -397,6 +398,14 @@ func (w *World) runECDSA(step int, q *ecdsaReq) *sigEvent {
 			w.r.Probe("gave_up_with_an_error_after_a_long_run_of_empty_reads")
 			return nil
 		}
+		if systemSource && q.dev.ErrAt >= 0 {
+			// The device stands in for the SYSTEM entropy source here, and it
+			// fails at some point: a library may ask the system source for
+			// more than the 32 bytes that hedge the nonce (a blinding mask),
+			// and failing closed when that read fails is not forbidden.
+			w.r.Probe("system_source_failed_beyond_byte_32_and_the_call_failed")
+			return nil
+		}
 		w.r.Violate("C09", "healthy-read-failed", opKey, step, "%s: no device error within the first 32 bytes, yet signing failed: %v", q.desc(), out.err)
 		return nil
 	}
@@ -424,6 +433,27 @@ func (w *World) runECDSA(step int, q *ecdsaReq) *sigEvent {
 	mode := "rfc6979"
 	if out.dev != nil {
 		mode = "hedged"
+		if systemSource && out.dev.Delivered > 32 {
+			// More than 32 bytes were taken from the SYSTEM source during
+			// the call.  The statement fixes what the nonce depends on - 32
+			// bytes of entropy - not what else a library may use system
+			// randomness for (a blinding mask sampled on first use); which
+			// 32 of the bytes hedged the nonce cannot be known from outside,
+			// so only the signature's validity is judged (C08), and the event
+			// takes no part in the entropy-dependent oracles.  Through a
+			// reader of the caller's own the same signer is held to exactly
+			// 32 bytes.
+			w.r.Probe("system_source_read_beyond_the_32_entropy_bytes")
+			ev := &sigEvent{step: step, key: q.key, digest: q.digest, mode: "hedged", r: r, s: s, v: v, sigDesc: q.desc()}
+			ev.e, _ = ref.DigestToE(q.digest)
+			if !haveV {
+				return nil
+			}
+			if po := protect(func() { w.checkSigEvent(ev) }); po.panicked {
+				w.r.Violate("C08", "verification-panics", opKey, step, "%s produced (r=%x s=%x v=%d); verifying / recovering / re-encoding that signature with the library panicked: %s", q.desc(), r, s, v, po.panicMsg)
+			}
+			return nil
+		}
 		if out.dev.Delivered != 32 {
 			w.r.Violate("C09", "entropy-consumption", opKey, step, "%s: signer consumed %d bytes of entropy, must be exactly 32", q.desc(), out.dev.Delivered)
 			return nil
@@ -1168,7 +1198,21 @@ func (w *World) runSchnorr(step, key int, msg []byte, cfg kernel.DevCfg, useNil 
 			w.r.Probe("gave_up_with_an_error_after_a_long_run_of_empty_reads")
 			return
 		}
+		if useNil && cfg.ErrAt >= 0 {
+			w.r.Probe("system_source_failed_beyond_byte_32_and_the_call_failed")
+			return
+		}
 		w.r.Violate("C14", "healthy-read-failed", "SchnorrSign", step, "%s: no device error within the first 32 bytes, yet signing failed: %v", desc, err)
+		return
+	}
+	if useNil && dev.Delivered > 32 {
+		// the device stands in for the system source and more than the 32
+		// aux bytes were taken from it (see the ECDSA case): which 32 were
+		// the aux is unknown, so the signature is only verified
+		w.r.Probe("system_source_read_beyond_the_32_entropy_bytes")
+		if !ref.BIP340Verify(ref.I2OSP32(sg.q.X), msg, sig) {
+			w.r.Violate("C14", "model-verify-fails", "SchnorrSign", step, "%s: signature does not verify under the x-only key (reference)", desc)
+		}
 		return
 	}
 	if dev.Delivered != 32 {
